@@ -297,7 +297,7 @@ pub fn run_c17(case: &Case) -> Outcome {
     let m = &case.model;
     let mut out = Outcome::new(m);
     let mut r = SmallRng::seed_from_u64(case.sub);
-    let cfg = Config::random(&mut r);
+    let cfg = Config::random_progressing(&mut r);
     cfg.label(&mut out);
     let sols = m.enumerate();
     if sols.len() > 1500 {
